@@ -339,7 +339,10 @@ func store() *mcache.Store { return mcache.VerifC03Store(pc) }
 
 // pipeCfg is the operator configuration of one pipeline: ECS forwarding ceilings,
 // per-family scope floors, prefetch percentage.
-type pipeCfg struct{ f4, f6, m4, m6, prefetch int }
+type pipeCfg struct {
+	f4, f6, m4, m6, prefetch int
+	nets                     []string // [ecs] client_networks allow-list
+}
 
 var curCfg pipeCfg
 
@@ -391,6 +394,9 @@ func (u *upstream) answerWith(req *dns.Msg, ans *ansSpec) *dns.Msg {
 		aliasPres = ans.alias.pres
 	}
 	resp.Answer = markerRRs(rec.rq.Name, rec.rq.Qtype, rec.rq.Qclass, rec.id, aliasPres)
+	if ans.servfail {
+		resp.Rcode, resp.Answer = dns.RcodeServerFailure, nil
+	}
 	o := new(dns.OPT)
 	o.Hdr.Name, o.Hdr.Rrtype = ".", dns.TypeOPT
 	o.SetUDPSize(4096)
@@ -450,7 +456,7 @@ func newPipe(ecs bool, pcf pipeCfg) {
 	cfg.Timeout.Duration = 10 * time.Second
 	if ecs {
 		cfg.ECS = config.ECSConfig{Enabled: true, ForwardV4Max: uint8(pcf.f4), ForwardV6Max: uint8(pcf.f6),
-			MinScopeV4: uint8(pcf.m4), MinScopeV6: uint8(pcf.m6)}
+			MinScopeV4: uint8(pcf.m4), MinScopeV6: uint8(pcf.m6), ClientNetworks: pcf.nets}
 	}
 	pc = mcache.New(cfg)
 	// the internal sub-pipeline the decoded CNAME chase queries: the same cache, then a miss
@@ -628,12 +634,45 @@ type reqSpec struct {
 	client netip.Prefix // the ECS option the client sends (invalid = none)
 	tcp    bool         // stream transport instead of UDP
 	do     bool         // the client sets DO
+	peer   net.IP       // the transport's peer address (nil: 198.51.100.77 as the 4 bytes a v4 socket reports)
 }
+
+// peerWriter reports a chosen peer address, in the byte form chosen (a dual-stack
+// listener reports IPv4 peers as 16-byte IPv4-mapped addresses).
+type peerWriter struct {
+	*mock.Writer
+	ip net.IP
+}
+
+func (w *peerWriter) RemoteAddr() net.Addr {
+	if w.Proto() == "tcp" {
+		return &net.TCPAddr{IP: w.ip, Port: 40000}
+	}
+	return &net.UDPAddr{IP: w.ip, Port: 40000}
+}
+func (w *peerWriter) RemoteIP() net.IP { return w.ip }
 
 // flavour: "-" | tcp | do | tcp+do  (transport and DNSSEC-OK bit: neither may change WHICH entry answers)
 func (r *reqSpec) flavour(s string) {
-	r.tcp = strings.Contains(s, "tcp")
-	r.do = strings.Contains(s, "do")
+	for _, t := range strings.Split(s, "+") {
+		switch {
+		case t == "tcp":
+			r.tcp = true
+		case t == "do":
+			r.do = true
+		case strings.HasPrefix(t, "peer="): // peer=4:<8 hex> | m:<8 hex> (IPv4-mapped, 16 bytes) | 6:<32 hex>
+			fam, h, _ := strings.Cut(t[5:], ":")
+			b := vlib.UnHex(h)
+			switch fam {
+			case "4":
+				r.peer = net.IP(b)
+			case "m":
+				r.peer = net.IP(b).To16()
+			default:
+				r.peer = net.IP(b)
+			}
+		}
+	}
 }
 
 func ecsOption(p netip.Prefix) *dns.EDNS0_SUBNET {
@@ -715,6 +754,7 @@ type ansSpec struct {
 	layout    string     // the reply's OPT options in order: S = the ECS option, c cookie, n NSID, e EDE, p padding ("" = "S")
 	rq        *ident     // the reply answers ANOTHER question than it was asked (rewriting upstream)
 	alias     *nameT     // the reply is an alias without its terminal: CNAME to this name
+	servfail  bool       // the upstream fails: a bare SERVFAIL
 }
 
 // drainSpec shapes the answers of the prefetch upstream during one `pipe drain`.
@@ -726,6 +766,10 @@ func serve(route string, r reqSpec, ans *ansSpec) (out string, reply *dns.Msg, v
 		proto = "tcp"
 	}
 	writer := mock.NewWriter(proto, "198.51.100.77:40000")
+	var transport middleware.Transport = writer
+	if r.peer != nil {
+		transport = &peerWriter{Writer: writer, ip: r.peer}
+	}
 	reached := false
 	terminal := middleware.HandlerFunc(func(_ context.Context, ch *middleware.Chain) {
 		reached = true
@@ -742,9 +786,9 @@ func serve(route string, r reqSpec, ans *ansSpec) (out string, reply *dns.Msg, v
 		if !req.ParseWire(rawQuery(r), time.Now(), nil) {
 			return "ineligible", nil, ""
 		}
-		ch.ResetWire(writer, req)
+		ch.ResetWire(transport, req)
 	} else {
-		ch.Reset(writer, msgQuery(r))
+		ch.Reset(transport, msgQuery(r))
 	}
 	ch.AllowDirectPack()
 	ch.Next(context.Background())
@@ -949,6 +993,9 @@ func dump() string {
 	sort.Strings(a)
 	var f []string
 	for h, id := range mcache.VerifC03FailureDump(pc) {
+		if _, err := strconv.Atoi(id); err != nil {
+			id = "0"
+		}
 		f = append(f, u64hex(h)+":"+id)
 	}
 	sort.Strings(f)
@@ -1271,10 +1318,15 @@ var judgeFresh int
 func execPipe(f []string) vlib.Res {
 	switch f[1] {
 	case "new": // pipe new <ecs on|off> [fwd4,fwd6,min4,min6,prefetch%]
-		pcf := pipeCfg{32, 128, 32, 128, 0}
+		pcf := pipeCfg{f4: 32, f6: 128, m4: 32, m6: 128}
 		if len(f) > 3 {
 			v := strings.Split(f[3], ",")
-			pcf = pipeCfg{vlib.Atoi(v[0]), vlib.Atoi(v[1]), vlib.Atoi(v[2]), vlib.Atoi(v[3]), vlib.Atoi(v[4])}
+			pcf = pipeCfg{f4: vlib.Atoi(v[0]), f6: vlib.Atoi(v[1]), m4: vlib.Atoi(v[2]), m6: vlib.Atoi(v[3]), prefetch: vlib.Atoi(v[4])}
+		}
+		if len(f) > 4 && strings.HasPrefix(f[4], "nets=") {
+			for _, n := range strings.Split(f[4][5:], ";") {
+				pcf.nets = append(pcf.nets, parseScope(n).String())
+			}
 		}
 		newPipe(f[2] == "on", pcf)
 		return vlib.Res{Impl: "ok"}
@@ -1344,6 +1396,12 @@ func execPipe(f []string) vlib.Res {
 				id := parseIdent(t[3:])
 				ans.rq = &id
 				judgeTags = append(judgeTags, "rewritten-question")
+			case t == "servfail":
+				ans.servfail = true
+				judgeTags = append(judgeTags, "upstream-servfail")
+			case strings.HasPrefix(t, "peer=") || t == "tcp" || t == "do":
+				r.flavour(t)
+				judgeTags = append(judgeTags, strings.SplitN(t, ":", 2)[0])
 			case strings.HasPrefix(t, "alias="):
 				n := parseName(t[6:])
 				ans.alias = &n
@@ -1356,6 +1414,40 @@ func execPipe(f []string) vlib.Res {
 			return vlib.Res{Impl: out, Oracle: judge("pipe/ask-"+f[2], out, r, hasECSOpt(r)), Tags: "nt," + via}
 		}
 		rec := up.asked[len(up.asked)-1]
+		if ans.servfail {
+			// the resolution FAILED for this client: the write-back files an RFC 9520 state; it belongs to the
+			// question and audience the upstream was asked for
+			idS := strconv.Itoa(rec.id)
+			mcache.VerifC03FailureTag(pc, "response", idS)
+			fl, _ := oPresLabels(rec.q.Name)
+			aud := netip.Prefix{}
+			if rec.ecs != nil {
+				var a netip.Addr
+				if rec.ecs.Family == 1 {
+					a, _ = netip.AddrFromSlice(rec.ecs.Address.To4())
+				} else {
+					a, _ = netip.AddrFromSlice(rec.ecs.Address.To16())
+				}
+				aud = oNorm(netip.PrefixFrom(a, int(rec.ecs.SourceNetmask)))
+			}
+			failures[rec.id] = &storedFailure{labels: fl, qtype: rec.q.Qtype, class: rec.q.Qclass, cd: rec.cd, scope: aud}
+			impl, or := fmt.Sprintf("servfail %d unrecorded", rec.id), "ok"
+			for h, pid := range mcache.VerifC03FailureDump(pc) {
+				if pid != idS {
+					continue
+				}
+				impl = fmt.Sprintf("servfail %d f=%s", rec.id, u64hex(h))
+				if k, ok := mcache.VerifC03FailureIdent(pc, h); ok {
+					switch {
+					case k.CD != rec.cd:
+						or = "FAIL sig=pipe/ask/failure-filed-in-another-cd-partition"
+					case aud.IsValid() && k.Scope != aud:
+						or = fmt.Sprintf("FAIL sig=pipe/ask/failure-of-one-audience-filed-for-another stored=%s audience=%s", fmtScope(k.Scope), aud)
+					}
+				}
+			}
+			return vlib.Res{Impl: impl, Oracle: or, Tags: strings.Join(append([]string{"nt", "via-upstream"}, judgeTags...), ",")}
+		}
 		al, _ := oPresLabels(rec.q.Name)
 		// the audience the authority (and the operator's floor) allow this answer to have: the network of
 		// the address the authority named, of min(SCOPE, SOURCE, floor of that family) bits
@@ -1530,7 +1622,9 @@ func execPipe(f []string) vlib.Res {
 		fl := ""
 		if len(f) > 5 {
 			r.flavour(f[5])
-			fl = "," + f[5]
+			for _, t := range strings.Split(f[5], "+") {
+				fl += "," + strings.SplitN(t, ":", 2)[0]
+			}
 		}
 		var out, via string
 		if f[2] == "store" {
